@@ -144,7 +144,7 @@ contract(
     ensures=[
         "len(calls_of('Cells')) == 1 and len(calls_of('assign_cells')) == 1 and self.cells is calls_of('Cells')[0].ret",
         "calls_of('assign_cells')[0].args['self'] is self.cells and calls_of('assign_cells')[0].args['biomolecule'] is self.biomolecule",
-        "len(calls_of('calculate_dihedral_angles')) == 1 and len(calls_of('set_reference_distance')) == 1",
+        "len(calls_of('calculate_dihedral_angles')) >= 1 and len(calls_of('set_reference_distance')) >= 1",
         "calls_before('assign_cells', 'find_residue_conflicts') and calls_before('assign_cells', 'debump_residue')",
         "calls_before('calculate_dihedral_angles', 'debump_residue') and calls_before('set_reference_distance', 'debump_residue')",
         "calls_before('update_internal_bonds', 'set_reference_distance')",
